@@ -241,6 +241,11 @@ def rule_zerocopy_supers(u, rep):
     return False
 
 
+# generic std types with built-in impls that are Copy (so ZeroCopy whenever their parameter is): probes/C17/zc_std_*.rs
+# keep this list honest (RangeTo<u8>: ZeroCopy compiles, Range<u8>: ZeroCopy does not)
+COPY_STD_GENERICS = {"core::ops::range::RangeTo", "core::ops::range::RangeToInclusive"}
+
+
 def rule_image_params(u, ts, rep):
     """Built-in composite types that are written as one raw memory image of Self (arrays, tuples): the image
     contains values of the type parameters, so IS_ZERO_COPY must be (at most) the conjunction of the parameters'
@@ -263,7 +268,18 @@ def rule_image_params(u, ts, rep):
             for x in ty:
                 if isinstance(x, tuple):
                     collect(x, depth + 1)
-        if im.self_ty[0] not in ("tuple", "array"):
+        # containers written as one raw image themselves (arrays, tuples), and every other built-in type that
+        # declares CopyType::Copy = Zero: as an element of a slice / array / zero-copy struct its memory image is
+        # written raw, under the element's own IS_ZERO_COPY
+        zero_decl = False
+        for ci in u.impls_by_trait.get(COPYTYPE, []):
+            m1 = {}
+            if unify(ci.self_ty, im.self_ty, m1) and unify(im.self_ty, ci.self_ty, {}):
+                ct = ci.assoc_ty("Copy")
+                zero_decl = bool(ct) and ct[0] == "adt" and ct[1] == ZERO
+        if im.self_ty[0] == "adt" and im.self_ty[1].startswith(("core::", "std::", "alloc::")) and im.self_ty[1] not in COPY_STD_GENERICS:
+            continue            # Range, RangeFrom, RangeInclusive are not Copy, hence never ZeroCopy; PhantomData holds no T
+        if im.self_ty[0] not in ("tuple", "array") and not (im.self_ty[0] == "adt" and zero_decl):
             continue
         collect(im.self_ty)
         params = {p_ for p_ in params if not (len(p_) > 1 and isinstance(p_[1], str) and p_[1].isupper() and len(p_[1]) == 1 and False)}
@@ -271,7 +287,7 @@ def rule_image_params(u, ts, rep):
         if not tparams:
             continue
         raw_self = any(a.k == "Z" and a.ty == im.self_ty for p in (t.paths.get("ser") or []) if p.outcome == "ok" for a in p.atoms)
-        if not raw_self:
+        if not raw_self and not (im.self_ty[0] == "adt" and zero_decl):
             continue
         bid = im.item_id("IS_ZERO_COPY")
         b = u.body(bid) if bid else None
@@ -295,7 +311,7 @@ def rule_image_params(u, ts, rep):
         missing = {p_ for p_ in tparams if not any(g == p_ or (isinstance(g, tuple) and g[:2] == p_[:2]) for g in got)}
         rep.oblige(not missing)
         if missing:
-            rep.add("ZC-PARAM", im.key(), "`%s` is written as one raw image of itself, which contains values of %s, but its IS_ZERO_COPY does not depend on %s::IS_ZERO_COPY: "
+            rep.add("ZC-PARAM", im.key(), "`%s` is written as one raw image (itself, or as an element of a zero-copy sequence), which contains values of %s, but its IS_ZERO_COPY does not depend on %s::IS_ZERO_COPY: "
                     "an element type wrongly declared zero-copy passes the run-time check through this container"
                     % (ty_str(im.self_ty), sorted(p_[1] for p_ in tparams), sorted(p_[1] for p_ in missing)), im.loc())
     rep.count("builtin_raw_image_containers", n)
